@@ -31,7 +31,6 @@ import (
 
 // ---------------------------------------------------------------- C19
 
-
 var c19Feeders = []string{"sumdb", "tiles", "pixel", "rekor", "serverless", "distributor"}
 var c19Sizes = []string{"normal", "0", "2^62", "2^62+5", "2^63-1", "2^63", "2^64-1"}
 var c19Roots = []int{32, 0, 5, 33}
@@ -57,11 +56,11 @@ func c19Size(s string) uint64 {
 
 // hostileLog serves one feeder type's protocol with a log-signed checkpoint of hostile size/root.
 type hostileLog struct {
-	kind  string
-	stub  *tileStub
-	cp    []byte
-	tree  *RefTree
-	size  uint64
+	kind   string
+	stub   *tileStub
+	cp     []byte
+	tree   *RefTree
+	size   uint64
 	treeID string
 }
 
@@ -134,13 +133,13 @@ func (h *hostileLog) ServeHTTP(rw http.ResponseWriter, rq *http.Request) {
 }
 
 type c19Case struct {
-	Feeder string `json:"feeder"`
-	Size   string `json:"size"`
-	Root   int    `json:"root"`
-	Net    string `json:"net"`   // fault for a seeded subset of requests
+	Feeder  string `json:"feeder"`
+	Size    string `json:"size"`
+	Root    int    `json:"root"`
+	Net     string `json:"net"` // fault for a seeded subset of requests
 	NetSeed uint64 `json:"net_seed"`
-	Seed   uint64 `json:"seed"`
-	Prior  bool   `json:"prior"` // the witness already holds an honest checkpoint of size 5
+	Seed    uint64 `json:"seed"`
+	Prior   bool   `json:"prior"` // the witness already holds an honest checkpoint of size 5
 }
 
 // TestC19Case runs one feeder (or distributor) cycle inside a bubble and prints how it ended. It is the
@@ -466,8 +465,8 @@ func init() {
 		Components: map[string]string{
 			"bastion add-checkpoint handler (+16 KiB cap) + witnessAdapter + witness, Proof.Unmarshal": "real, in-process, with a recover around each delivery",
 			"feeders sumdb / tiles / pixel / rekor / serverless (one cycle each), rest.Distributor":    "real, each case in a child process inside a synctest bubble",
-			"peers":    "harness stubs speaking each feeder's protocol with log-signed hostile checkpoints; simnet faults",
-			"watchdog": "parent process, 8 s wall clock per case (the bubble's clock is fake, so only a CPU spin or a real deadlock can exhaust it)",
+			"peers":                   "harness stubs speaking each feeder's protocol with log-signed hostile checkpoints; simnet faults",
+			"watchdog":                "parent process, 8 s wall clock per case (the bubble's clock is fake, so only a CPU spin or a real deadlock can exhaust it)",
 			"coverage-guided fuzzing": "not used (different technique); seeded structure-aware mutation instead",
 		},
 		Assumptions: []string{"which status is right for a given body is C10's business; here any documented status passes", "the serverless stub serves a valid checkpoint and unparseable tiles (the serverless tile format is not re-implemented)"},
